@@ -43,6 +43,7 @@ The modelled program (what harness/hx-c10 builds from the real crates):
 | `dropInitial`             | `if update_if_necessary { initial_fut.take(); }` (since "fix: async derived must not reuse its initial future when a memo source changed before the first poll") |
 | `smMarkDirty`, `smUpdate`, `dMarkCheck`, `inputsNow` | the source memo `sm = Memo(all sources)` of configurations with `viaMemo` (the fetcher reads `sm.get()` instead of the signals): `MemoInner::mark_dirty` (`Dirty`; subscriber `d` gets `mark_check` = notify only), `MemoInner::update_if_necessary` under observer `d` |
 | `…V`, `runOld1`, `runOld2`| the same chain with either repair switched off (the code as it was): regression witnesses only |
+| `bdropFixed`, `stepF`, `runF true` | the code with the PROPOSED repair hooks/fix-c10-3.patch (not applied; known finding F-C10-3): what the repair achieves is stated about `runF true` |
 | `applyResult`             | `fut.await` returned: version check, `set_inner_value` = store + `notify_subs` |
 | `notifySubs`              | `ArcAsyncDerived::notify_subs`: `loading = false`; `state ← Notifying`; every subscriber `mark_dirty`; drain `wakers`; `state ← prev` |
 | `dMarkDirty`              | `ReactiveNode::mark_dirty` for `RwLock<ArcAsyncDerivedInner>`: unless `Notifying`: `state = Dirty; notifier.notify()` |
@@ -557,16 +558,18 @@ rendering of `<Suspense/>` relies on that: `dry_resolve` reads under owners it d
 def dropAw (a : Aw) : Aw :=
   if a.kind = .saw ∧ a.done = false then { a with aborted := true, woken := true } else a
 
-/-- every reader under the boundary is disposed: their interests end (`SuspenseInterest`, `on_cleanup`):
-registrations not yet taken are dead, task ids held for the fetch in flight are released at once -/
+/-- every reader under the boundary is disposed (owner cleanup, awaiting futures dropped).  THE CODE AS IT IS
+(known finding F-C10-3 = F-C04-5): nothing connects a registration in `suspenses`, or a task id the loop took
+for one, to the reader that made it — only the awaiting futures go -/
 def bdrop (s : State) : State :=
+  { s with aws := s.aws.map dropAw, noReader := true }
+
+/-- the same with the PROPOSED repair hooks/fix-c10-3.patch ("a Suspense boundary must not join a reload on
+behalf of a reader that is gone", not applied): a registration is a `SuspenseInterest` that ends with the reader's
+owner (`on_cleanup`): registrations not yet taken are dead, task ids held for the fetch in flight are released at once -/
+def bdropFixed (s : State) : State :=
   { s with aws := s.aws.map dropAw, pending := s.pending - s.idsHeld, susp := 0, idsHeld := 0,
            coveredCur := false, noReader := true }
-
-/-- before "a Suspense boundary must not wait … on behalf of a reader that is gone": nothing connected a
-registration to its reader; only the awaiting futures go -/
-def bdropOld (s : State) : State :=
-  { s with aws := s.aws.map dropAw, noReader := true }
 
 /-! ## executor -/
 
@@ -619,6 +622,14 @@ def step (s : State) : Event → State
 
 def run (c : Cfg) (es : List Event) : State := es.foldl step (init c)
 
+/-- `step` with the proposed repair 3 switched on (`f = true`) or off (`f = false`: `step` itself) -/
+def stepF (f : Bool) (s : State) : Event → State
+  | .bdrop => if f then bdropFixed s else bdrop s
+  | e => step s e
+
+/-- `runF false` is `run` (the code as it is); `runF true` is the code with hooks/fix-c10-3.patch applied -/
+def runF (f : Bool) (c : Cfg) (es : List Event) : State := es.foldl (stepF f) (init c)
+
 /-- FIFO until no task is woken (the `idle` op of the drivers) -/
 def runIdle : Nat → State → State
   | 0, s => s
@@ -650,11 +661,17 @@ def liveReaders (l : List Aw) : Nat := (l.filter fun a => decide (a.kind = .read
 def suspCovered (s : State) : Bool :=
   decide (s.pc = .fetching) && !s.msetDuring && (s.coveredCur || s.readSince)
 
+/-- class `suspense-stale` (known finding F-C10-3 = F-C04-5): no reader exists under the boundary (none was
+created since every reader was disposed) and yet its task list holds more than the handles of synchronous reads
+still waiting for the load they were made in — i.e. a task id the loop took for the registration of a reader
+that no longer exists -/
+def staleSuspense (s : State) : Bool := s.noReader && decide (liveReaders s.aws < s.pending)
+
 def oracle (s : State) : Option String :=
   if s.panicked then some "panic"
   else if (readyList s).isEmpty && suspCovered s && s.pending == 0 then some "suspense-missed"
   else if (readyList s).isEmpty && s.pc != .fetching && s.pending != 0 then some "suspense-stuck"
-  else if s.noReader && decide (liveReaders s.aws < s.pending) then some "suspense-stale"
+  else if staleSuspense s then some "suspense-stale"
   else if !settled s then none
   else if s.loading then some "loading-stuck"
   else if s.value ≠ expected s then some (if s.stolen then "dirty-stolen" else "stale")
@@ -662,14 +679,15 @@ def oracle (s : State) : Option String :=
   else if hasEffect s.eff && lastSeen s ≠ some s.value then some "subscriber-stale"
   else none
 
-/-! ## the code before the repairs (regression witnesses only; `f1`/`f2` = repair 1/2 applied)
+/-! ## the code before the repairs (regression witnesses only; `f1`/`f2` = repair 1/2 applied, both are in the
+code; `f3` = the proposed repair 3, which is NOT: the model proper is `runV true true false`)
 
 * repair 1 (F-C10-1): before it, `update_if_necessary` asked by a subscriber was the task's own function:
   it consumed `Dirty` (`stolen`), or walked the derived's sources without the derived as observer (a
   changed source memo then marked the derived dirty) and answered whether one had changed;
 * repair 2 (F-C10-2): before it, the initial future was only dropped when `already_dirty`;
-* repair 3 (F-C10-3 = F-C04-5): before it, a boundary's registrations and task ids outlived their readers
-  (`bdropOld`). -/
+* repair 3 (F-C10-3 = F-C04-5, proposed): without it a boundary's registrations and task ids outlive their
+  readers (`bdrop`); with it they end with them (`bdropFixed`). -/
 
 def dAsSourceOld (s : State) : State × Bool :=
   if s.dstate = .dirty then ({ s with dstate := .clean, stolen := true }, true)
@@ -738,16 +756,14 @@ def pollNthV (f1 f2 : Bool) (s : State) (j : Nat) : State :=
 
 def stepV (f1 f2 f3 : Bool) (s : State) : Event → State
   | .poll j => pollNthV f1 f2 s j
-  | .bdrop => if f3 then bdrop s else bdropOld s
+  | .bdrop => if f3 then bdropFixed s else bdrop s
   | e => step s e
 
 def runV (f1 f2 f3 : Bool) (c : Cfg) (es : List Event) : State := es.foldl (stepV f1 f2 f3) (init c)
 
 /-- the code before repair 1 (F-C10-1) -/
-def runOld1 : Cfg → List Event → State := runV false true true
+def runOld1 : Cfg → List Event → State := runV false true false
 /-- the code before repair 2 (F-C10-2) -/
-def runOld2 : Cfg → List Event → State := runV true false true
-/-- the code before repair 3 (F-C04-5 / F-C10-3: stale Suspense registration) -/
-def runOld3 : Cfg → List Event → State := runV true true false
+def runOld2 : Cfg → List Event → State := runV true false false
 
 end Leptos.Async
